@@ -22,8 +22,9 @@ from harness import common
 from harness import c02_impl as I
 
 GEN_MODULES = ['layout', 'llh']
-MODEL_TARGETS = ['model/M_Layout.vo', 'model/M_Llh.vo']
-PROOF_TARGETS = ['proofs/P_Layout.vo', 'proofs/P_LayoutDeriv.vo', 'proofs/P_LlhDeriv.vo', 'proofs/P_WeightsDeriv.vo']
+MODEL_TARGETS = ['model/M_Layout.vo', 'model/M_Llh.vo', 'model/M_LlhGrad.vo']
+PROOF_TARGETS = ['proofs/P_Layout.vo', 'proofs/P_LayoutDeriv.vo', 'proofs/P_LlhDeriv.vo', 'proofs/P_WeightsDeriv.vo',
+                 'proofs/P_LlhGrad.vo', 'proofs/P_LlhStack.vo', 'proofs/P_LlhPipeGrad.vo']
 LEVEL = 'proof'
 RULE = ('layouts: ns + up to 3 further global parameters x {fixed,floating} x declaration orders x mappings '
         '(shared / per-source alias / subset of sources / unused local name) over 1..3 sources in 1..2 hypothesis '
@@ -38,8 +39,10 @@ TRUSTED = [
     'local quantities (PDF ratios R_ik, detector yields Y_jk) are arbitrary differentiable functions in the theorems (premises is_derive ...); '
     'the interpolation methods themselves and scipy RectBivariateSpline derivatives are not verified here',
     'real-number reading: float rounding is outside the theorems; the finite-difference predicate uses tolerances',
-    'the composition of the per-layer theorems (layout chain rule, product/quotient/stacking rules, single- and multi-dataset sums) into '
-    'one end-to-end derivative statement is not machine-checked; it is exercised by the finite-difference predicate',
+    'composition: C02_pipeline chains f_j quotient rule + stacking + single-dataset + multi-dataset sum in the model\'s own functions with '
+    'hypotheses only on the leaves a_jk(t), R_ik(t); C02_layout_leaf supplies those hypotheses from the layout. The instantiation of the '
+    'pipeline with the layout-generated leaves (one closed theorem from declaration list to gradient vector) and the dependency flags of '
+    'PDFRatioProduct are not machine-checked; the finite-difference predicate exercises them',
     'harness stubs: spatial signal/background PDFs returning prescribed arrays, table function behind the energy-ratio grid, '
     'yield table behind the real spline-based detector yield class, event selection returning prescribed pairs',
 ]
